@@ -264,6 +264,9 @@ func genTree(r *Rng, hostile bool) []fFile {
 	if hostile && len(out) > 0 {
 		// outside the quantifier: duplicates, missing parents, unclean names, trailing slashes
 		for k := 0; k < 1+r.Intn(2); k++ {
+			if len(out) == 0 {
+				break
+			}
 			i := r.Intn(len(out))
 			name := unhx(out[i].Name)
 			switch r.Intn(7) {
@@ -409,6 +412,30 @@ func genLinesText(r *Rng, pool []string) string {
 func (formatsSuite) Gen(r *Rng, i int, tier string) any {
 	k := r.Intn(100)
 	hostile := r.Chance(12)
+	if r.Chance(4) {
+		c := fCase{Kind: "idxseq"}
+		for j := 0; j < r.Range(1, 3); j++ {
+			c.Pkgs = append(c.Pkgs, genPkg(r, false))
+		}
+		for j := 0; j < r.Range(1, 4); j++ {
+			c.Pkgs2 = append(c.Pkgs2, genPkg(r, false))
+		}
+		return c
+	}
+	if r.Chance(4) {
+		// a sequence of adds in which some fail after part of the record was produced (a checksum record that is not hex)
+		c := fCase{Kind: "idbseq"}
+		n := r.Range(2, 4)
+		for j := 0; j < n; j++ {
+			ip := genIPkg(r, false)
+			if j < n-1 && r.Chance(60) {
+				ip.Files = append([]fFile{{Name: hx("usr"), Dir: true, Mode: 0o755}, {Name: hx("usr/lib"), Dir: true, Mode: 0o755}, {Name: hx("usr/lib/a-good"), Mode: 0o644, Csum: hx("da39a3ee5e6b4b0d3255bfef95601890afd80709")}},
+					append(ip.Files, fFile{Name: hx("usr/lib/zz-poison"), Mode: 0o644, Csum: hx("zz-not-hex")})...)
+			}
+			c.IPkgs = append(c.IPkgs, ip)
+		}
+		return c
+	}
 	switch {
 	case k < 28:
 		c := fCase{Kind: "idx"}
